@@ -26,7 +26,9 @@ N(ev) == Prod(ev.shape)
 Idx(ev) == 1..N(ev)
 \* with a zero scale every code explains the output: the zero code is taken then (the code is unobservable)
 TheCode(ev, k) == LET cs == CodesOf(ev, k) \cap Expected(ev, k) IN
-                  IF ev.s[k][1] = 0 /\ 0 \in cs THEN 0 ELSE CHOOSE c \in cs : TRUE
+                  \* an output that is exactly 0 is read as code 0 (a scale tiny enough to be absorbed by the float32
+                  \* straight-through sum would "explain" it with +-1 as well)
+                  IF (ev.s[k][1] = 0 \/ ev.y[k][1] = 0) /\ 0 \in cs THEN 0 ELSE CHOOSE c \in cs : TRUE
 
 ElementClauses(ev) ==
   IF \E k \in Idx(ev) : CodesOf(ev, k) = {} THEN <<"code_not_in_alphabet">>
